@@ -57,8 +57,12 @@ Section Script.
 
   Definition ss_init : sst := {| s_t := 0; s_pend := zeros (sc_n sc); s_steps := []; s_reads := [] |}.
 
-  Definition ss_do_call := do_call sst Z Z Z (sc_n sc) ss_learning ss_reset ss_step ss_obs ss_reward
-                                   ss_done ss_all ss_info ss_next.
+  Definition script_sim : simulation sst Z Z Z :=
+    {| sim_n := sc_n sc; sim_learning := ss_learning; sim_reset := ss_reset; sim_step := ss_step;
+       sim_obs := ss_obs; sim_reward := ss_reward; sim_done := ss_done; sim_all := ss_all;
+       sim_info := ss_info; sim_next := ss_next |}.
+
+  Definition ss_do_call := do_call script_sim.
 
   (* run a history, recording after every call the response and the cumulative numbers of
      sim.step calls and get_reward reads *)
@@ -162,7 +166,7 @@ Definition run_managers (x : sx) : sx :=
   | L [xs; L xcs] =>
       match dec_script xs, all_some (map dec_call xcs) with
       | Some (k, sc), Some cs =>
-          let (rs, m) := ss_run sc k (init sst (ss_init sc)) cs in
+          let (rs, m) := ss_run sc k (init (ss_init sc)) cs in
           L [L (map (fun rnn => L [enc_resp (fst (fst rnn)); ofNat (snd (fst rnn)); ofNat (snd rnn)]) rs);
              L (map enc_kvs (s_steps (m_sim m)));
              ofNats (s_reads (m_sim m))]
